@@ -91,7 +91,14 @@ func (cr *checkRun) findFailingInput(oracle string, o *Obligation) (input string
 	if cr.tier == "thorough" {
 		budget = 60 * time.Second
 	}
-	r := runOracle(cr.repo, cr.vdir, oracle, "", budget, cr.seed)
+	if cr.oracleCache == nil {
+		cr.oracleCache = map[string]oracleResult{}
+	}
+	r, ok := cr.oracleCache[oracle]
+	if !ok {
+		r = runOracle(cr.repo, cr.vdir, oracle, "", budget, cr.seed)
+		cr.oracleCache[oracle] = r
+	}
 	return r.Input, r.Detail, r.Found
 }
 
